@@ -1,0 +1,65 @@
+//go:build verif
+
+package completion
+
+// Contracts for the shell-completion helpers that open the cache (property C19).
+// Comment-only file: it is compiled only with -tags verif and contains no code.
+
+// A completion helper that needs the cache opens it like a command does, and gives it back exactly when the open
+// succeeded (C19: "every command releases the lock on success and on failure"; "any other attempt to open it is refused
+// ... and changes nothing"): a refused open must not be followed by a Close - closing the cache object whose lock attempt
+// failed removes the lock file of the live holder.
+//@ func GitRemote$1
+//@   props C19
+//@   requires env != nil
+//@   stable cache.closeCalls, execenv.lastLoadOK
+//@   ensures [a-refused-open-closes-nothing] !execenv.lastLoadOK ==> cache.closeCalls == old(cache.closeCalls)
+//@   ensures [an-opened-cache-is-given-back] execenv.lastLoadOK ==> cache.closeCalls == old(cache.closeCalls) + 1
+//@ func GitRemote$1$1
+//@   props C19
+//@   ensures [closes-once] cache.closeCalls == old(cache.closeCalls) + 1
+//@ func Bridge$1
+//@   props C19
+//@   requires env != nil
+//@   stable cache.closeCalls, execenv.lastLoadOK
+//@   ensures [a-refused-open-closes-nothing] !execenv.lastLoadOK ==> cache.closeCalls == old(cache.closeCalls)
+//@   ensures [an-opened-cache-is-given-back] execenv.lastLoadOK ==> cache.closeCalls == old(cache.closeCalls) + 1
+//@ func Bridge$1$1
+//@   props C19
+//@   ensures [closes-once] cache.closeCalls == old(cache.closeCalls) + 1
+//@ func BridgeAuth$1
+//@   props C19
+//@   requires env != nil
+//@   stable cache.closeCalls, execenv.lastLoadOK
+//@   ensures [a-refused-open-closes-nothing] !execenv.lastLoadOK ==> cache.closeCalls == old(cache.closeCalls)
+//@   ensures [an-opened-cache-is-given-back] execenv.lastLoadOK ==> cache.closeCalls == old(cache.closeCalls) + 1
+//@ func BridgeAuth$1$1
+//@   props C19
+//@   ensures [closes-once] cache.closeCalls == old(cache.closeCalls) + 1
+//@ func Label$1
+//@   props C19
+//@   requires env != nil
+//@   stable cache.closeCalls, execenv.lastLoadOK
+//@   ensures [a-refused-open-closes-nothing] !execenv.lastLoadOK ==> cache.closeCalls == old(cache.closeCalls)
+//@   ensures [an-opened-cache-is-given-back] execenv.lastLoadOK ==> cache.closeCalls == old(cache.closeCalls) + 1
+//@ func Label$1$1
+//@   props C19
+//@   ensures [closes-once] cache.closeCalls == old(cache.closeCalls) + 1
+//@ func User$1
+//@   props C19
+//@   requires env != nil
+//@   stable cache.closeCalls, execenv.lastLoadOK
+//@   ensures [a-refused-open-closes-nothing] !execenv.lastLoadOK ==> cache.closeCalls == old(cache.closeCalls)
+//@   ensures [an-opened-cache-is-given-back] execenv.lastLoadOK ==> cache.closeCalls == old(cache.closeCalls) + 1
+//@ func User$1$1
+//@   props C19
+//@   ensures [closes-once] cache.closeCalls == old(cache.closeCalls) + 1
+//@ func UserForQuery$1
+//@   props C19
+//@   requires env != nil
+//@   stable cache.closeCalls, execenv.lastLoadOK
+//@   ensures [a-refused-open-closes-nothing] !execenv.lastLoadOK ==> cache.closeCalls == old(cache.closeCalls)
+//@   ensures [an-opened-cache-is-given-back] execenv.lastLoadOK ==> cache.closeCalls == old(cache.closeCalls) + 1
+//@ func UserForQuery$1$1
+//@   props C19
+//@   ensures [closes-once] cache.closeCalls == old(cache.closeCalls) + 1
